@@ -74,7 +74,7 @@ def variants(c, seed, nvar):
             yield text, spans
 
 
-def work(lines, seed, nvar, wid, flip):
+def work(lines, seed, nvar, wid):
     """Decodes one chunk of CASE lines, lays the cases out, parses them with the real
     implementation and compares.  Returns plain data to be merged by the parent."""
     out = {"classes": {}, "styles": {}, "kinds": set(), "violations": [], "events": [], "bad_events": [],
@@ -110,8 +110,6 @@ def work(lines, seed, nvar, wid, flip):
     # fast path: the canonical text of the parser's tree equals the specification's
     redo = [i for i, ((c, spans, label), r) in enumerate(zip(meta, results))
             if "tree" in r and r["tree"] != su.canon(c["exp"]["tree"], spans)]
-    if flip:
-        redo = sorted(set(redo) | {0})
     if redo:
         again = run_cases([dict(cases[i], full=True) for i in redo], name + "f", timeout_ms=10000, workers=4)
         for i, r in zip(redo, again):
@@ -125,8 +123,6 @@ def work(lines, seed, nvar, wid, flip):
         half = c["half"]
         fast_ok = "tree" in r
         etree = su.expected_tree(exp["tree"], spans) if d == "accept" and not fast_ok else None
-        if flip and idx == 0 and etree is not None:
-            etree["e"] += 1          # binding demonstration: falsify one expected span
         out["evaluations"] += 1
         if c["nontrivial"]:
             out["digests"].add(hashlib.blake2b(src.encode(), digest_size=8).digest())
@@ -268,7 +264,6 @@ class Merge:
 
 def stream(res, mg, tier, seed):
     nvar = 1
-    flip = bool(os.environ.get("VERIF_C15_FLIP"))
     t0 = time.time()
     with concurrent.futures.ProcessPoolExecutor(max_workers=PROCS) as ex:
         pending = []
@@ -288,12 +283,12 @@ def stream(res, mg, tier, seed):
                     continue
                 chunk.append(line)
                 if len(chunk) >= CHUNK:
-                    pending.append(ex.submit(work, chunk, seed, nvar, wid, flip and wid == 0))
+                    pending.append(ex.submit(work, chunk, seed, nvar, wid))
                     wid += 1
                     chunk = []
                     drain(2 * PROCS - 1)
         if chunk:
-            pending.append(ex.submit(work, chunk, seed, nvar, wid, flip and wid == 0))
+            pending.append(ex.submit(work, chunk, seed, nvar, wid))
         drain(0)
     for w in range(wid + 1):
         for suffix in ("", "f"):
